@@ -46,7 +46,7 @@ class SGD(Optimizer):
         """
         super().__init__(parameters, lr)
         self.momentum = momentum
-        self.momentum_buffer = []
+        self.momentum_buffer = [None for _ in range(len(parameters))]
         self.nesterov = nesterov
         self.dampening = dampening
         self.maximize = maximize
@@ -67,10 +67,11 @@ class SGD(Optimizer):
                 
                 # Momentum
                 if self.momentum != 0:
-                    if self.t > 1:
+                    if self.momentum_buffer[i] is not None:
                         self.momentum_buffer[i] = self.momentum*self.momentum_buffer[i] + (1.0 - self.dampening)*grad
                     else:
-                        self.momentum_buffer.append(grad)
+                        # own copy: the gradient buffer keeps accumulating after this step
+                        self.momentum_buffer[i] = np.array(grad, copy=True)
                 
                     # Nesterov
                     if self.nesterov:
